@@ -740,7 +740,8 @@ func (l *Local) factoryAllocWorker(ctx context.Context) {
 
 			l.status = statusInUse
 		} else {
-			eniID := l.eni.ID
+			// read under the lock: the eni may be gone (l.eni == nil) by the time the calls below return
+			eniID, eniMAC := l.eni.ID, l.eni.MAC
 			// never ask for more than the interface has room for: addresses that are being
 			// disposed (e.g. returned together with an error by an earlier call) still count
 			// against the limit until they are unassigned
@@ -767,7 +768,7 @@ func (l *Local) factoryAllocWorker(ctx context.Context) {
 					l.cond.L.Lock()
 					continue
 				}
-				ipv4Set, err := l.factory.AssignNIPv4(eniID, v4Count, l.eni.MAC)
+				ipv4Set, err := l.factory.AssignNIPv4(eniID, v4Count, eniMAC)
 
 				l.cond.L.Lock()
 
@@ -798,7 +799,7 @@ func (l *Local) factoryAllocWorker(ctx context.Context) {
 					l.cond.L.Lock()
 					continue
 				}
-				ipv6Set, err := l.factory.AssignNIPv6(eniID, v6Count, l.eni.MAC)
+				ipv6Set, err := l.factory.AssignNIPv6(eniID, v6Count, eniMAC)
 
 				l.cond.L.Lock()
 
